@@ -7,7 +7,10 @@ C07 checker.  One real node per case; query objects are numbered in creation ord
   `reg <lt> <id> <ack> <cap> <dl> <tm>`  hook `VerifRegisterQuery`: the real `newQueryResponse(cap, …)` +
         `registerQueryResponse`; `dl` = `far` | `past` (the object's deadline is already over), `tm` = `long`
         (the harness fires the timer closure's body: op `close`) | `short` (the real timer, 120 ms) → `ok`
-  `query <ack>`                          the real `s.Query(…)` (long timeout) → `<lt> <id> <cap>`
+  `query <ack>`                          the real `s.Query(…)` (long timeout) → `<lt> <id> <cap>`; the model's `.query` action
+        predicts the Lamport time from its own query clock
+  `qrace <n>`                            free-running: n goroutines call `s.Query` at once (40 ms timeout) → `ok` |
+        `shared-time:<lt>` (two calls got one Lamport time) | `unclosed:<k>` (streams still open after the timeouts)
   `reply <lt> <id> <from> <ack> <tag>`   a `messageQueryResponse` through `Delegate.NotifyMsg` (the whole of
         `handleQueryResponse` runs) → `ok`
   `replyto <obj> <from> <ack> <tag>`     the same, addressed with the time and id of object <obj> → `ok`
@@ -50,7 +53,8 @@ structure MObj where
   deriving Inhabited
 
 structure St where
-  sys : Sys := {}
+  /-- `serf.Create` increments the query clock once: a fresh node's clock stands at 1 -/
+  sys : Sys := { clock := 1 }
   consumedA : List Nat := []   -- per object: acks already drained (model)
   consumedR : List Nat := []
   mon : List MObj := []
@@ -128,9 +132,31 @@ def stepOp (s : St) (op : List String) (impl : String) : LineOut St :=
     match bool? ack, impl.splitOn " " with
     | some ack, [lt, id, cap] =>
       match lt.toNat?, id.toNat?, cap.toNat? with
-      | some lt, some id, some cap => { state := doRegister s lt id ack cap false false, model := none }
+      | some lt, some id, some cap =>
+        -- the model takes the time from its own query clock (`.query`); the node must have used the same
+        let want := s.sys.clock
+        let idx := s.sys.objs.length
+        let sys := act s.sys (.query id ack cap)
+        let st : St := { sys := sys, consumedA := s.consumedA ++ [0], consumedR := s.consumedR ++ [0],
+                         mon := s.mon ++ [{ lt := want, id := id, ack := ack, short := false, past := false }] }
+        let _ := idx
+        { state := st, model := none,
+          monitor := if lt != want then some ("query-time", s!"Query used Lamport time {lt}, the query clock stood at {want}") else none }
       | _, _, _ => { state := s, model := none, monitor := some ("malformed", impl) }
     | _, _ => { state := s, model := some "bad-op" }
+  | ["qrace", n] =>
+    -- free-running: n goroutines call Serf.Query at once (short real timeout); the times must be pairwise
+    -- distinct and every query's streams closed once the timeouts are over
+    match n.toNat? with
+    | some n =>
+      let sys := if n == 0 then s.sys else act s.sys (.witness (s.sys.clock + n - 1))
+      let mon : Option (String × String) :=
+        if impl == "ok" then none
+        else if impl.startsWith "shared-time" then some ("shared-query-time", impl)
+        else if impl.startsWith "unclosed" then some ("not-closed", impl)
+        else some ("malformed", impl)
+      { state := { s with sys := sys }, model := some "ok", monitor := mon }
+    | none => { state := s, model := some "bad-op" }
   | ["reply", lt, id, from_, ack, tag] =>
     match lt.toNat?, id.toNat?, stringOfHex? from_, bool? ack, tag.toNat? with
     | some lt, some id, some sender, some ack, some tag =>
